@@ -89,9 +89,14 @@ def _pat_matches(pat, scheme):
     return None
 
 
-def eval_cond(facts, c, scheme):
-    """Tri-valued partial evaluation of a condition under `scheme`: True / False / None."""
+def eval_cond(facts, c, scheme, known=None):
+    """Tri-valued partial evaluation of a condition under `scheme`: True / False / None.  `known` maps immutable bool
+    locals to the value their initialiser has under the scheme (`let ntt_form = cd.is_bgv() || cd.is_ckks();`)."""
     k = c.get("k")
+    if known and k == "Path" and c.get("res") == "local" and c.get("lid") in known:
+        return known[c["lid"]]
+    if known and k in ("Ref",) or (known and k == "Un" and c.get("op") == "*"):
+        return eval_cond(facts, c["e"], scheme, known)
     if k == "Bin":
         op = c["op"]
         if op in ("==", "!="):
@@ -107,14 +112,14 @@ def eval_cond(facts, c, scheme):
                 return r if op == "==" else (not r)
             return None
         if op == "&&":
-            x, y = eval_cond(facts, c["a"], scheme), eval_cond(facts, c["b"], scheme)
+            x, y = eval_cond(facts, c["a"], scheme, known), eval_cond(facts, c["b"], scheme, known)
             if x is False or y is False:
                 return False
             if x is True and y is True:
                 return True
             return None
         if op == "||":
-            x, y = eval_cond(facts, c["a"], scheme), eval_cond(facts, c["b"], scheme)
+            x, y = eval_cond(facts, c["a"], scheme, known), eval_cond(facts, c["b"], scheme, known)
             if x is True or y is True:
                 return True
             if x is False and y is False:
@@ -122,7 +127,7 @@ def eval_cond(facts, c, scheme):
             return None
         return None
     if k == "Un" and c.get("op") == "!":
-        x = eval_cond(facts, c["e"], scheme)
+        x = eval_cond(facts, c["e"], scheme, known)
         return None if x is None else (not x)
     if k == "MCall" and c.get("name") in ("is_ckks", "is_bfv", "is_bgv") and not c["args"]:
         return c["name"] == "is_" + scheme.lower()
@@ -139,7 +144,7 @@ def eval_cond(facts, c, scheme):
                 return None
         return None
     if k == "Block" and not c.get("stmts") and c.get("expr"):
-        return eval_cond(facts, c["expr"], scheme)
+        return eval_cond(facts, c["expr"], scheme, known)
     return None
 
 
@@ -150,9 +155,36 @@ def _strip(n):
     return n
 
 
-def project(facts, n, scheme):
+def _bool_lets(facts, n, scheme):
+    """immutable bool locals whose initialiser is decided by the scheme"""
+    lets = []
+    work = [n]
+    while work:
+        x = work.pop()
+        if isinstance(x, list):
+            work.extend(x)
+        elif isinstance(x, dict):
+            if x.get("k") == "Let" and "init" in x and x.get("pat", {}).get("k") == "PBind" and not x["pat"].get("mut") and \
+                    facts.ty(x["pat"]) == "bool":
+                lets.append(x)
+            for key, v in x.items():
+                if isinstance(v, (dict, list)) and key != "f":
+                    work.append(v)
+    known = {}
+    for _ in range(3):
+        for x in lets:
+            if x["pat"]["lid"] not in known:
+                v = eval_cond(facts, x["init"], scheme, known)
+                if v is not None:
+                    known[x["pat"]["lid"]] = v
+    return known
+
+
+def project(facts, n, scheme, known=None):
+    if known is None:
+        known = _bool_lets(facts, n, scheme) or {}
     if isinstance(n, list):
-        out = [project(facts, x, scheme) for x in n]
+        out = [project(facts, x, scheme, known) for x in n]
         if all(a is b for a, b in zip(out, n)):
             return n
         return out
@@ -165,25 +197,25 @@ def project(facts, n, scheme):
             if m is None:
                 break
             if m and not arm.get("guard"):
-                body = project(facts, arm["body"], scheme)
-                scrut = project(facts, n["e"], scheme)
+                body = project(facts, arm["body"], scheme, known)
+                scrut = project(facts, n["e"], scheme, known)
                 return {"k": "Block", "t": n.get("t"), "l": n.get("l"), "id": n.get("id"),
                         "stmts": [{"k": "Semi", "e": scrut}], "expr": body, "projected": scheme}
     if k == "If":
-        r = eval_cond(facts, n["c"], scheme)
+        r = eval_cond(facts, n["c"], scheme, known)
         if r is True:
-            th = project(facts, n["th"], scheme)
+            th = project(facts, n["th"], scheme, known)
             return {"k": "Block", "t": n.get("t"), "l": n.get("l"), "id": n.get("id"),
-                    "stmts": [{"k": "Semi", "e": project(facts, n["c"], scheme)}], "expr": th, "projected": scheme}
+                    "stmts": [{"k": "Semi", "e": project(facts, n["c"], scheme, known)}], "expr": th, "projected": scheme}
         if r is False:
-            el = project(facts, n["el"], scheme) if n.get("el") else None
+            el = project(facts, n["el"], scheme, known) if n.get("el") else None
             return {"k": "Block", "t": n.get("t") if el is not None else n.get("t"), "l": n.get("l"), "id": n.get("id"),
-                    "stmts": [{"k": "Semi", "e": project(facts, n["c"], scheme)}], "expr": el, "projected": scheme}
+                    "stmts": [{"k": "Semi", "e": project(facts, n["c"], scheme, known)}], "expr": el, "projected": scheme}
     changed = False
     out = {}
     for key, v in n.items():
         if isinstance(v, (dict, list)) and key not in ("f",):
-            nv = project(facts, v, scheme)
+            nv = project(facts, v, scheme, known)
             if nv is not v:
                 changed = True
             out[key] = nv
